@@ -54,7 +54,9 @@ CHECKS = {
              "C01_end_to_end_models: generation followed by the MODEL of minimise_tables (any method chain, any non-failing targets) "
              "delivers every net's packet exactly to its sinks' cores. The gap between models and real executions of the whole "
              "pipeline (7 placer configurations, both wrappers) is closed per instance: every real mapping is decided inside Coq by "
-             "the verified checker check_delivery and by an independent Python packet simulator.",
+             "the verified checker check_delivery and by an independent Python packet simulator. C01_nets_ok_of_route_net composes "
+             "C03's theorems (all chips working, leaf routes members of Routes) into the bridge, leaving one stated assumption "
+             "(no hop of a tree on an endpoint link of the same tree).",
         ref="4 C01", technique="Coq proof (big-step delivery semantics, tree induction, composition of the C10/C04/C03 models; verified validator) + validator evaluated in Coq on real pipeline outputs",
         note=TB + " Placement/allocation feasibility is C02/C05; the rig_c_sa kernel is third-party compiled code (outputs validated "
              "only). Units GenNetwork, GenTable*, GenRouter, GenGeometry* are regenerated on every run; GenPipeline pins, fail closed, "
